@@ -27,11 +27,16 @@ def _run_script(src, timeout=60, cwd=None):
         path = os.path.join(d, "script.py")
         with open(path, "w") as fh:
             fh.write(textwrap.dedent(src))
-        try:
-            p = subprocess.run([PY, path], cwd=cwd or d, env=_env(), capture_output=True, text=True, timeout=timeout)
-            return p.returncode, p.stdout, p.stderr
-        except subprocess.TimeoutExpired as ex:
-            return 124, (ex.stdout or b"").decode() if isinstance(ex.stdout, bytes) else (ex.stdout or ""), "TIMEOUT"
+        # output goes to files, not pipes: an orphaned worker inheriting a pipe would keep run() waiting
+        with open(os.path.join(d, "out.txt"), "w") as fo, open(os.path.join(d, "err.txt"), "w") as fe:
+            try:
+                p = subprocess.run([PY, path], cwd=cwd or d, env=_env(), stdout=fo, stderr=fe, stdin=subprocess.DEVNULL, timeout=timeout)
+                rc = p.returncode
+            except subprocess.TimeoutExpired:
+                rc = 124
+        out = open(os.path.join(d, "out.txt")).read()
+        err = open(os.path.join(d, "err.txt")).read() if rc != 124 else "TIMEOUT"
+        return rc, out, err
 
 
 WIRE = r'''
@@ -65,9 +70,10 @@ for k, (kind, n) in enumerate(reqs):
 si.send_dict({"shutdown": True, "wait": True})
 expect.append(("ack", None))
 got = []
+time.sleep(DELAY)
 poller = zmq.Poller()
 poller.register(si._socket, zmq.POLLIN)
-deadline = time.time() + 20
+deadline = time.time() + 40
 while len(got) < len(expect) and time.time() < deadline:
     ev = dict(poller.poll(500))
     if si._socket in ev:
@@ -95,12 +101,14 @@ def wire_case(rng):
     for _ in range(rng.randint(2, 7)):
         r = rng.random()
         if r < 0.65:
-            reqs.append(("big", rng.choice([10, 1000, 200000, 2000000])))
+            huge = sum(1 for k, n in reqs if n >= 30000000)
+            reqs.append(("big", rng.choice([10, 1000, 200000, 2000000] + ([33000000, 48000000] if huge < 3 else []))))
         elif r < 0.85:
             reqs.append(("boom", 0))
         else:
             reqs.append(("init", 0))
-    rc, out, err = _run_script(WIRE.replace("REQS", repr(reqs)), timeout=90)
+    delay = rng.choice([0, 0, 1.5])      # the parent may start reading late (pipelined requests)
+    rc, out, err = _run_script(WIRE.replace("REQS", repr(reqs)).replace("DELAY", repr(delay)), timeout=120)
     try:
         d = json.loads(out.strip().split("\n")[-1])
     except Exception:  # noqa
@@ -180,7 +188,13 @@ def scaled(x):
 def run(values):
     cloudpickle_register(ind=1)      # the documented idiom: ship this module by value
     with Executor(max_workers=1, backend="local", block_allocation=BLOCK, hostname_localhost=True) as exe:
-        return [f.result() for f in [exe.submit(scaled, v) for v in values]]
+        out = []
+        for f in [exe.submit(scaled, v) for v in values]:
+            try:
+                out.append(f.result(timeout=40))
+            except BaseException as e:
+                out.append("raised " + type(e).__name__ + ": " + str(e)[:80])
+        return out
 """.replace("BLOCK", "BLOCKVAL"))
 sys.path.insert(0, d)
 import mod_a, mod_b
